@@ -4,7 +4,7 @@ PROP = dict(
     modules=["Shangrla.Props.C08a"],
     theorems=["Shangrla.C08.phantoms_style", "Shangrla.C08.phantoms_nostyle", "Shangrla.C08.phantom_ids_distinct",
               "Shangrla.Phantoms.style_phantoms", "Shangrla.Phantoms.count_closed"],
-    groups={"phantoms": (2000, 40000)},
+    groups={"phantoms": (6000, 40000)},
     design_ref="DESIGN.md section 5, C08",
     assumptions=[
         "contests are a dict keyed by contest id: one contest per id",
